@@ -101,11 +101,11 @@ func init() {
 		{ID: "E1.introspect.provider", Fn: "op.Introspect", Kind: "store", Pat: "store($resp.Active, true)", Max: 1,
 			Why: "active:true only for an authenticated caller, a token the provider can resolve, and a successful storage lookup for that caller",
 			Req: []string{"introspectionCaller($clientID, $r)", "def($token, op.ParseTokenIntrospectionRequest($r, _), 0)",
-				"ok(op.getTokenIDAndSubject(_, _, $token))", "def($tokenID, op.getTokenIDAndSubject(_, _, $token), 0)", "def($subject, op.getTokenIDAndSubject(_, _, $token), 1)",
+				"tokenResolved(_, _, $token)", "def($tokenID, op.getTokenIDAndSubject(_, _, $token), 0)", "def($subject, op.getTokenIDAndSubject(_, _, $token), 1)",
 				"ok(_.SetIntrospectionFromToken(_, $resp, $tokenID, $subject, $clientID))"}},
 		{ID: "E1.introspect.legacy-server", Fn: "op.(*LegacyServer).Introspect", P: []string{"s", "ctx", "r"}, Kind: "store", Pat: "store($resp.Active, true)", Max: 1,
 			Req: []string{"resourceClient($clientID, $r.Data.ClientCredentials)",
-				"ok(op.getTokenIDAndSubject(_, _, $r.Data.Token))", "def($tokenID, op.getTokenIDAndSubject(_, _, $r.Data.Token), 0)", "def($subject, op.getTokenIDAndSubject(_, _, $r.Data.Token), 1)",
+				"tokenResolved(_, _, $r.Data.Token)", "def($tokenID, op.getTokenIDAndSubject(_, _, $r.Data.Token), 0)", "def($subject, op.getTokenIDAndSubject(_, _, $r.Data.Token), 1)",
 				"ok(_.SetIntrospectionFromToken(_, $resp, $tokenID, $subject, $clientID))"}},
 
 		// --- revocation (Provider); the Server router runs Revocation behind withClient
